@@ -29,7 +29,8 @@ def addDescV : Val → R Val
 def addDesc (r : R Val) : R Val := r.bind addDescV
 
 /-- one level of `DESC.__sqlrepr__`: DESC of DESC renders the inner expression, else the format appends ` DESC` -/
-theorem descSqlrepr_step (v db : Val) (hstr : ∀ w, fnRec "sqlrepr" [v, db] [] = .ok w → ∃ s, w = .str s) :
+theorem descSqlrepr_step (v db : Val)
+    (hstr : hasCls "DESC" v = false → ∀ w, fnRec "sqlrepr" [v, db] [] = .ok w → ∃ s, w = .str s) :
     descSqlreprX (qIface sch P fnRec cm cv) (descV v) db =
       if hasCls "DESC" v = true then ofR ((attrOf (qIface sch P fnRec cm cv) v "expr").bind fun w => fnRec "sqlrepr" [w, db] [])
       else ofR (addDesc (fnRec "sqlrepr" [v, db] [])) := by
@@ -41,7 +42,7 @@ theorem descSqlrepr_step (v db : Val) (hstr : ∀ w, fnRec "sqlrepr" [v, db] [] 
     | stuck => pyqw [h, ha, ofR]
   · cases hs : fnRec "sqlrepr" [v, db] [] with
     | ok w =>
-      obtain ⟨s, rfl⟩ := hstr w hs
+      obtain ⟨s, rfl⟩ := hstr (by simpa using h) w hs
       pyqw [h, hs, ofR, addDesc, addDescV, descS]
     | exc e => pyqw [h, hs, ofR, addDesc]
     | stuck => pyqw [h, hs, ofR, addDesc]
